@@ -304,6 +304,23 @@ namespace ip {
 		// in checking the queue
 		if (!m_accept_handler && !m_accept_handler2) return;
 
+		// connection attempts made to an endpoint this acceptor has given up since
+		// (it was closed or re-opened, and bound again) must not be accepted.
+		// Refuse them like the ones left over when the acceptor is closed
+		for (auto i = m_incoming_conns.begin(); i != m_incoming_conns.end();)
+		{
+			if ((*i)->ep[1] == m_bound_to) { ++i; continue; }
+
+			aux::packet p;
+			p.from = asio::ip::udp::endpoint((*i)->ep[1].address(), (*i)->ep[1].port());
+			p.type = aux::packet::type_t::error;
+			p.ec = boost::system::error_code(error::connection_reset);
+			p.overhead = 28;
+			p.hops = (*i)->hops[0];
+			forward_packet(std::move(p));
+			i = m_incoming_conns.erase(i);
+		}
+
 		if (m_incoming_conns.empty()) return;
 
 		std::shared_ptr<aux::channel> c = std::move(m_incoming_conns.front());
